@@ -67,6 +67,12 @@ func (r *Runner) replayGeom(l *Line) lineResult {
 	}
 	R := uint8(g.R)
 	calls := 0
+	// large target sets, once per run (in the re-execution of a stored case: always)
+	if r.one {
+		calls += geomBig(fail)
+	} else {
+		geomBigOnce.Do(func() { calls += geomBig(fail) })
+	}
 	pan := protect(func() {
 		switch g.Op {
 		case "up", "left", "right", "upmany", "downmany", "retarget", "detect":
